@@ -27,8 +27,8 @@ def run(tier, seed):
     for res in runs:
         r.add_tlc(res)
         cases += [lc.to_case(c, "L") for c in res["cases"]]
-    for fam in ("calls", "control", "tail", "delim", "store", "wide", "applam", "reads", "param", "restloop"):
-        cases += lc.run_family(vlib, fam, work, r, fresh=(fam not in ("calls", "wide", "applam", "reads", "restloop")))
+    for fam in ("calls", "control", "tail", "delim", "store", "wide", "applam", "reads", "param", "restloop", "idefs"):
+        cases += lc.run_family(vlib, fam, work, r, fresh=(fam not in ("calls", "wide", "applam", "reads", "restloop", "idefs")))
     cases = lc.dedup(cases)
     verdicts = vlib.replay(cases, work, jobs=12, timeout_ms=10000, name="c01")
     r.add_cases(cases, verdicts, nontrivial=lc.nontrivial)
